@@ -96,6 +96,8 @@ func scenario(x *explore.X, maxSegs int, withBackPressure bool) {
 	}
 	// per-request server timeouts of the library configuration (HTTPServerConfig.ReadTimeout / WriteTimeout):
 	// they bound reading one request and writing one response, a tunnel is neither
+	// raw sockets with or without the ReadFrom / WriteTo of *net.TCPConn: the relay copies with or without its own buffer
+	opts.FastPathSockets = x.Choose("sockets-offer-readfrom-writeto", 2) == 1
 	// --log-http body installs a response modifier that reads message bodies: a 101 / CONNECT reply has none to read
 	if x.Choose("log-http-body", 2) == 1 {
 		opts.LogHTTP = "body"
@@ -253,7 +255,7 @@ func scenario(x *explore.X, maxSegs int, withBackPressure bool) {
 	}
 	// ---- explore all interleavings of the remaining script events ------------------------------
 	cFin, tFin := false, false
-	hist := fmt.Sprintf("%s|aged=%v|close=%v|to=%s|log=%s|fr=%q|c%v|t%v|", routings[routing], aged, upClose, srvTO, opts.LogHTTP, framing, lens(cs), lens(ts))
+	hist := fmt.Sprintf("%s|aged=%v|close=%v|to=%s|log=%s|fast=%v|fr=%q|c%v|t%v|", routings[routing], aged, upClose, srvTO, opts.LogHTTP, opts.FastPathSockets, framing, lens(cs), lens(ts))
 	check := func(ev string) bool {
 		x.Check()
 		gotT, gotC := tg.Recv(), cl.Recv()
